@@ -1,5 +1,6 @@
 import Gomjml.Core.Resolve
 import Gomjml.Core.Store
+import Gomjml.Core.ClassMerge
 import Gomjml.Gen.AttrSites
 import Gomjml.Expect.AttrSites
 /-! # C09 — attribute values resolve by MJML precedence, independent of source (property theorems only) -/
@@ -74,5 +75,29 @@ theorem C09_no_read_past_resolvers :
       (s.2.1 = "read" ∧ s.1 ∈ Gomjml.Expect.AttrSites.resolverBodies) ∨
       (s.2.1 = "write" ∧ (s.1, s.2.2) ∈ Gomjml.Expect.AttrSites.ownMapWrites) := by
   decide +kernel
+
+/-- **the class level of the resolution Spec is what `NewBaseComponent` computes**: for every list of class names and every
+    table of definitions, the merged value of an attribute (other than css-class) is what the last listed class that defines
+    it says — `Resolve.classValue` over "per listed class, the value it defines", the input `C09_full_is_winner` takes as
+    given.  (`norm` = `normalizeAttributeValue`, applied to the winning value.) -/
+theorem C09_class_level_is_the_merge (norm : String → String → String) (a : String) (ha : a ≠ "css-class")
+    (cas : List Gomjml.ClassMerge.ClassDefs) :
+    (Gomjml.Store.get (Gomjml.ClassMerge.merge norm cas).1 a).getD "" =
+      classValue (cas.map (Gomjml.ClassMerge.says norm a)) :=
+  Gomjml.ClassMerge.merge_get norm a ha cas
+
+/-- … and for css-class: every listed class that defines one contributes it, in list order, joined by a blank —
+    `Resolve.cssClassValue` (a class's definitions are a Go map: at most one css-class each) -/
+theorem C09_css_class_level_is_the_merge (norm : String → String → String) (cas : List Gomjml.ClassMerge.ClassDefs)
+    (h1 : ∀ ca ∈ cas, ∀ as, ca = some as → (as.filter Gomjml.ClassMerge.isCss).length ≤ 1) :
+    Gomjml.ClassMerge.cssJoined (Gomjml.ClassMerge.merge norm cas).2 =
+      cssClassValue (cas.map (fun ca => ca.bind (fun as => ((as.filter Gomjml.ClassMerge.isCss).head?).map (·.2)))) :=
+  Gomjml.ClassMerge.merge_css norm cas h1
+
+/-- non-vacuity: `mj-class="a zz b"`, a: color=red css-class=x, zz undefined, b: color="" css-class=y -/
+example : (Gomjml.Store.get (Gomjml.ClassMerge.merge (fun _ v => v)
+      [some [("color", "red"), ("css-class", "x")], none, some [("color", ""), ("css-class", "y")]]).1 "color") = some "" ∧
+    Gomjml.ClassMerge.cssJoined (Gomjml.ClassMerge.merge (fun _ v => v)
+      [some [("color", "red"), ("css-class", "x")], none, some [("color", ""), ("css-class", "y")]]).2 = "x y" := by decide
 
 end Gomjml.Props.C09
